@@ -44,7 +44,7 @@ def _scenario(draw, tier):
         hi = [l + draw(st.sampled_from([0.5, 1.0, 3.0])) for l in lo]
         tspec = dict(kind="truncgauss", d=d, lo=lo, hi=hi, mu=[(a + b) / 2 for a, b in zip(lo, hi)], s=[1.0] * d)
     else:
-        tk = draw(st.sampled_from(["gauss", "gauss", "laplace", "corrgauss"]))
+        tk = draw(st.sampled_from(["gauss", "gauss", "laplace", "corrgauss", "moat"]))
         if tk == "corrgauss" and d < 2:
             tk = "gauss"
         tspec = dict(kind=tk, d=d)
@@ -157,6 +157,9 @@ def check_swap(V, pre, post, A0, A1, S0, S1, uniforms, temps, tgts, stats):
         xi, xj = pre[i].last, pre[j].last
         Li, Lj = tgts[i].logpdf(xi), tgts[j].logpdf(xj)
         expo = (1.0 / temps[i] - 1.0 / temps[j]) * (Lj - Li)
+        if math.isnan(expo):  # both at -inf (or equal temperatures with an infinite gap): undefined, not judged
+            stats["probe_swap_undefined_ratio"] += 1
+            continue
         a = 1.0 if expo >= 0 else math.exp(expo)
         ambiguous = np.array_equal(xi, xj)
         if ambiguous:
@@ -310,17 +313,27 @@ def run_pt(sc, sched, canonical=False, want_trace=False):
             x_shared = None
             for k in range(N):
                 tg = targets.make_target(sc["target"], tag="c%d" % k)
-                if sc["bounded"]:
-                    x0 = tg.draw(srng, 1.0)
+                if sc["bounded"] or sc["target"]["kind"] == "moat":
+                    x0 = tg.draw(srng, 1.0)  # (never inside the zero-probability moat)
                 else:
                     x0 = tg.draw(srng, 1.0) * 0.5 + 0.1
                 if sc["same_start"]:
                     if x_shared is None:
                         x_shared = x0
                     x0 = x_shared.copy()
+                # (only HMC chains: a Gibbs-family chain that sits at -inf feeds a NaN acceptance probability into its
+                #  width adaptation - the constructor means to reject such starts - and an exchange can hand the -inf
+                #  point to any other chain of the ladder)
+                moat_start = sc["target"]["kind"] == "moat" and sc["chain"] == "hmc" and k == (sc["seed"] % N)
+                if moat_start:
+                    x0[0] = 0.5 * (tg.a + tg.b)  # this chain starts inside the zero-probability moat (L = -inf)
+                    stats["fault_chain_starts_at_zero_probability"] += 1
                 spec = dict(kind=sc["chain"], T=temps[k], display=sc["display"], widths=[1.0 + 0.5 * k] * d,
                             epsilon=0.3, bounds=(sc["target"]["lo"], sc["target"]["hi"]) if sc["bounded"] else None,
                             knobs=dict(steps=sc["hmc_steps"], dir_update_interval=sc["pca_update"]))
+                if moat_start:
+                    # a NaN acceptance probability (-inf against -inf) must not reach the width adaptation (see lifecycle)
+                    spec["knobs"].update(chk_int=10 ** 9, max_tries=10 ** 9)
                 chains.append(build.build_chain(spec, tg, x0))
                 tgts.append(tg)
             c.sim = sim
